@@ -109,6 +109,11 @@ Section Monitor.
         {| m_sess := m_sess m; m_queue := m_queue m; m_expect := m_expect m; m_tun := m_tun m;
            m_optka := m_optka m; m_init := m_init m; m_recv := m_recv m; m_sent := m_sent m;
            m_last := m_last m; m_est := m_est m - d; m_owed := m_owed m; m_hs := m_hs m |}
+    | IShiftHs d =>                  (* harness hook: the last handshake message counts as sent d earlier;
+                                        the gap to the next initiation is then not the device's doing *)
+        {| m_sess := m_sess m; m_queue := m_queue m; m_expect := m_expect m; m_tun := m_tun m;
+           m_optka := m_optka m; m_init := None; m_recv := m_recv m; m_sent := m_sent m;
+           m_last := m_last m; m_est := m_est m; m_owed := m_owed m; m_hs := m_hs m - d |}
     | ISetAttempts n =>              (* harness hook: n retries are counted as made *)
         {| m_sess := m_sess m; m_queue := m_queue m; m_expect := m_expect m; m_tun := m_tun m;
            m_optka := m_optka m;
